@@ -503,7 +503,8 @@ class ExcFlow(object):
             if mm:
                 data, pos, size = mm.groups()
                 for t, pol, how in conds:
-                    if how.startswith('early-exit:raise') and pol and txt(t) == '%s<=len%s-%s' % (size, data, pos):
+                    if how.startswith('early-exit:raise') and pol and txt(t) in ('%s<=len%s-%s' % (size, data, pos),
+                                                                                 '%s+%s<=len%s' % (pos, size, data), '%s+%s<=len%s' % (size, pos, data)):
                         return 'remaining-length guard'
             return None
         return None
